@@ -323,6 +323,11 @@ func (wtr *JSONWtr) writeValue(p *node.Path, v val.Value) error {
 					return err
 				}
 			}
+		case val.FmtEmpty:
+			// RFC 7951 section 6.9
+			if _, err := wtr._out.WriteString("[null]"); err != nil {
+				return err
+			}
 		default:
 			if _, err := wtr._out.WriteString(item.String()); err != nil {
 				return err
